@@ -116,4 +116,15 @@ extern "C" void op_sparse(const double *, double * out)
   smooth::ad_sparse<smooth::SO3d>(sp2, s.tang);
   Eigen::MatrixXd D2(sp2);
   vh::put(D2, out);
+  // Hessian routines (dense fall-back inside the library) and the inverse Jacobian, each into a thread-private matrix
+  Eigen::SparseMatrix<double> h1 = smooth::d2_exp_sparse_pattern<smooth::SE2d>, h2 = smooth::d2_exp_sparse_pattern<smooth::SE2d>;
+  smooth::d2r_exp_sparse<smooth::SE2d>(h1, Eigen::Vector3d(s.tang), 0);
+  smooth::d2r_expinv_sparse<smooth::SE2d>(h2, Eigen::Vector3d(s.tang), 0);
+  Eigen::MatrixXd H1(h1), H2(h2);
+  vh::put(H1, out);
+  vh::put(H2, out);
+  Eigen::SparseMatrix<double> sp3 = smooth::d_exp_sparse_pattern<smooth::SO3d>;
+  smooth::dr_expinv_sparse<smooth::SO3d>(sp3, s.tang, 0);
+  Eigen::MatrixXd D3(sp3);
+  vh::put(D3, out);
 }
